@@ -85,11 +85,12 @@ func httpSchema(ptr bool) *eng.Node {
 
 func streamHTTP(seed uint64, n int, driver string) (*Summary, error) {
 	sum := newSummary("http", seed)
-	sum.Rule = "product of 9 methods x 14 Content-Type values (bare, with parameters, with whitespace, unknown, empty) x 9 body classes (valid object, {}, truncated, array, number, null, empty, valid form, malformed form) x 5 query shapes (none, single, repeated, k[] list, other keys) x {Struct, Ptr(Struct)} with a distinct sentinel per source; exhaustive over the product when n is large, sampled otherwise; non-trivial = every case (each fixes one source choice); distinct = distinct case line"
+	sum.Rule = "product of 9 methods x 14 Content-Type values (bare, with parameters, with whitespace, unknown, empty) x 13 body classes (valid object, {}, truncated, array, number, null, empty, valid form, malformed form, object followed by text / a bracket / a second object, object followed by white space) x 5 query shapes (none, single, repeated, k[] list, other keys) x {Struct, Ptr(Struct)} with a distinct sentinel per source; exhaustive over the product when n is large, sampled otherwise; non-trivial = every case (each fixes one source choice); distinct = distinct case line"
 	methods := []string{"GET", "HEAD", "POST", "PUT", "PATCH", "DELETE", "OPTIONS", "get", "CUSTOM"}
 	ctypes := []string{"application/json", "application/json; charset=utf-8", "application/json;charset=utf-8", "application/json ;x=1", "application/x-www-form-urlencoded",
 		"application/x-www-form-urlencoded; charset=UTF-8", "multipart/form-data; boundary=x", "text/plain", "", ";application/json", "Application/JSON", "application/jsonx", "application/json;", "text/plain; a=application/json"}
-	bodies := []string{`{"j_name":"J","num":3,"tags":["tj1","tj2"],"one":"oj"}`, `{}`, `{"j_name":"J"`, `["j_name"]`, `17`, `null`, ``, `f_name=F&num=4&tags%5B%5D=tf1&tags%5B%5D=tf2&one=of`, `f_name=%zz&num=4`}
+	bodies := []string{`{"j_name":"J","num":3,"tags":["tj1","tj2"],"one":"oj"}`, `{}`, `{"j_name":"J"`, `["j_name"]`, `17`, `null`, ``, `f_name=F&num=4&tags%5B%5D=tf1&tags%5B%5D=tf2&one=of`, `f_name=%zz&num=4`,
+		`{"j_name":"J"} trailing`, `{"j_name":"J"}]`, `{"j_name":"J"}{"j_name":"K"}`, "{\"j_name\":\"J\",\"num\":7} \n\t "}
 	queries := []string{"", "q_name=Q&num=5", "q_name=Q&q_name=Q2&one=a&one=b", "q_name=Q&tags%5B%5D=tq1", "zzz=1&f_name=QF&j_name=QJ"}
 	type combo struct {
 		m, ct, body, q string
@@ -143,7 +144,8 @@ func streamHTTP(seed uint64, n int, driver string) (*Summary, error) {
 		}
 		jsonS := sx.A("err")
 		var m map[string]any
-		if err := json.NewDecoder(strings.NewReader(c.body)).Decode(&m); err == nil && m != nil {
+		// a well-formed body is ONE JSON value (json.Unmarshal rejects anything after it)
+		if err := json.Unmarshal([]byte(c.body), &m); err == nil && m != nil {
 			jsonS = sx.T("ok", jsonToV(map[string]any(m)).Sx())
 		}
 		ext := eng.NewExt()
